@@ -65,3 +65,23 @@ Theorem C05_component_end_to_end_any_positioner : forall bk o g g' x, component_
   layout_component_x bk o g = Ok (g', x) -> E3_statement g g'.
 Proof. exact Gx3_endpoints_any. Qed.
 Print Assumptions C05_component_end_to_end_any_positioner.
+
+(* ---------- spline routing (Model/Splines.v, Model/PipelineSpl.v; Proofs/SplineRouting.v, SplinePipeline*.v) ----------
+   [layout_component_sx shortest fit mk_inner bk o g] is the pipeline with EdgeRoutingSplines when [o_p5 o = OtherRouting];
+   geom.Shortest, geom.FitSpline and the inner control points of geom.MakeSpline are arbitrary functions. The end points
+   hold for every router that returns a path from the end point to the start point ([shortest_ok]: what C19 states of
+   geom.Shortest) and every fitter whose pieces start and end where the path does and join ([fit_ok]: proved of the
+   structure of FitSpline for every numeric oracle that keeps the ends, [fit_spline_fit_ok]; C20). *)
+From Autog Require Import Geom SplineStruct Splines PipelineSpl SplineProofs SplineRouting SplinePipeline SplinePipeline2.
+
+Theorem C05_spline_routing_end_points : forall shortest fit mk_inner, shortest_ok shortest -> fit_ok fit ->
+  forall bk o g g' x, component_input g -> o_p5 o = Phase5.OtherRouting ->
+  layout_component_sx shortest fit mk_inner bk o g = Ok (g', x) -> E3_statement g g'.
+Proof. exact Gs3_endpoints. Qed.
+Print Assumptions C05_spline_routing_end_points.
+
+Theorem C05_one_spline_route : forall shortest fit mk_inner g e ns pts, shortest_ok shortest -> fit_ok fit ->
+  spline_route shortest fit mk_inner g e ns = Ok pts ->
+  spline_shape (start_point g (e_from (gedge g e))) (end_point g (e_to (gedge g e))) pts.
+Proof. intros shortest fit mk_inner g e ns pts SO FO. exact (spline_route_shape shortest fit mk_inner SO FO g e ns pts). Qed.
+Print Assumptions C05_one_spline_route.
